@@ -233,6 +233,17 @@ def execute(ctx, case: dict) -> None:
                         LOG[:] = []
                         _record(acl, "start")
                         break
+            elif op == "members-change":
+                # the member list of a group address changes in place (the rendered text stays the same): the estimate follows
+                for ace in [i for i in _flat(acl.items) if type(i).__name__ == "Ace"]:
+                    tgt = ace.srcaddr if ace.srcaddr.addrgroup else (ace.dstaddr if ace.dstaddr.addrgroup else None)
+                    if tgt is not None:
+                        n_new = len(tgt.items) + rng.choice([1, 2, 3])
+                        tgt.items = [f"host 10.77.{k}.1" if acl.platform == "ios" else f"10.77.{k}.1/32" for k in range(n_new)]
+                        LOG[:] = []
+                        _record(acl, "start")
+                        ctx.count("member_lists_changed_between_estimates")
+                        break
             elif op == "reseq-shuffle-sort":
                 acl.resequence(rng.choice([10, 1, 100]), rng.choice([10, 1, 5]))
                 _record(acl, "resequence")
@@ -291,7 +302,9 @@ def gen_case(rng, thorough=False):
     ops.append(rng.choice(["ungroup", "reseq-shuffle-sort", "ungroup"]))
     if members and rng.random() < 0.3:
         ops.insert(rng.randint(0, len(ops)), "degroup-address")
-    if rng.random() < 0.3:
+    if members and rng.random() < 0.4:
+        ops.insert(rng.randint(1, len(ops)), "members-change")
+    if rng.random() < 0.3 and "members-change" not in ops:
         ops = ["reseq-shuffle-sort", "group", "reseq-shuffle-sort", "ungroup"]
     return {"platform": platform, "prefix": prefix, "text": text, "members": members, "ops": ops,
             "rseed": rng.randrange(1 << 30)}
